@@ -39,4 +39,35 @@ def addSigner : List Nat → Nat → List Nat
 /-- the slots filled after the cosigners at the given key positions have signed, in that order -/
 def signedBy (order : List Nat) : List Nat := order.foldl addSigner []
 
+/-! ## Where `Transaction.sign` puts the signatures -/
+
+/-- the slots of `Transaction.sign` (`sig_domain`): one per key of the input, empty or holding the
+signature of that key position (a signature is named by the position of the key it verifies under) -/
+abbrev Slots := List (Option Nat)
+
+/-- a new signature always takes the slot of its key -/
+def putNew (d : Slots) (p : Nat) : Slots := d.set p (some p)
+
+/-- a known signature takes the slot of its key when that is still empty -/
+def putKnown (d : Slots) (p : Nat) : Slots := if d[p]? == some none then d.set p (some p) else d
+
+/-- `Transaction.sign` since the repair F100: the signatures made now, then every known signature at
+the position of the key it verifies under (found from its key, or by verification when it came
+without one); the stored signatures are the non-empty slots in order -/
+def placeAll (n : Nat) (new known : List Nat) : List Nat :=
+  ((known.foldl putKnown (new.foldl putNew (List.replicate n none))).filterMap id)
+
+/-- `Transaction.sign` before the repair: known signatures (position, carries its key) were placed
+only up to the first one that came without its key; if any were left, ALL known signatures were
+put, one after the other, into the first free slot from the left -/
+def placePinned (n : Nat) (new : List Nat) (known : List (Nat × Bool)) : List Nat :=
+  let d0 := new.foldl putNew (List.replicate n none)
+  let withKey := known.takeWhile (·.2)
+  let d1 := (withKey.map (·.1)).foldl putKnown d0
+  if withKey.length = known.length then d1.filterMap id
+  else
+    ((known.map (·.1)).foldl (fun d s => match d.findIdx? (· == none) with
+      | some i => d.set i (some s)
+      | none => d) d1).filterMap id
+
 end Btc.Multisig
